@@ -176,6 +176,9 @@ type scriptT struct {
 	nonceKey  []string
 	sawReq    *gpb.SubscribeRequest
 	sessions  int
+	rewrites  int // same-timestamp rewrites of an existing leaf in the stream
+	selfNames bool // the device fills prefix.target with names of its own choosing
+	selfNamed int
 	allSentAt time.Time // when a session had handed its last response to the transport
 	mu        sync.Mutex
 }
@@ -190,7 +193,7 @@ type storedLeaf struct {
 // genScript generates the response stream of one target and its model.
 // pathOrigin: put the origin into update paths instead of the prefix (D19's input class).
 func genScript(rng *rand.Rand, name string, pathOrigin bool, tsBase int64) *scriptT {
-	s := &scriptT{name: name, mdl: newTModel(), mdlAlt: newTModel(), structOf: map[string]storedLeaf{}}
+	s := &scriptT{name: name, mdl: newTModel(), mdlAlt: newTModel(), structOf: map[string]storedLeaf{}, selfNames: rng.Intn(3) == 0}
 	conts := []string{"c0", "c1", "c2", "interfaces", "state"}
 	leafs := []string{"l0", "l1", "l2", "in-octets", "oper-status", "name"}
 	keyvals := []string{"k1v", "eth0", "10", "v 2"}
@@ -215,6 +218,7 @@ func genScript(rng *rand.Rand, name string, pathOrigin bool, tsBase int64) *scri
 	nLeaves := 5 + rng.Intn(36)
 	type stored = storedLeaf
 	var known []stored
+	storedTS := map[string]int64{} // index key -> timestamp the leaf is stored under
 	effOrigin := func(o string) string {
 		if o == "" {
 			return defaultOrigin
@@ -252,6 +256,22 @@ func genScript(rng *rand.Rand, name string, pathOrigin bool, tsBase int64) *scri
 			s.mdl.del(append([]string{name, effOrigin(k.origin)}, indexOf(es)...))
 		} else {
 			base := randElems(deprecated)
+			// Same-timestamp rewrite: an existing leaf is sent again with the very
+			// timestamp it is stored under and (almost always) another value; the
+			// statement of C02 lets it replace the stored value, so it is part of
+			// the target's final state and every view must show it.
+			forcedLeaf := ""
+			if !pathOrigin && len(known) > 0 && rng.Intn(6) == 0 {
+				k := known[rng.Intn(len(known))]
+				key := model.Key(append([]string{name, effOrigin(k.origin)}, indexOf(k.es)...))
+				if _, present := s.mdl.cur[key]; present && storedTS[key] > 0 {
+					ts -= 1000
+					n.Timestamp = storedTS[key]
+					origin, deprecated = k.origin, false
+					base, forcedLeaf = k.es[:len(k.es)-1], k.es[len(k.es)-1].Name
+					s.rewrites++
+				}
+			}
 			split := rng.Intn(len(base) + 1)
 			if pathOrigin {
 				split = 0
@@ -262,13 +282,13 @@ func genScript(rng *rand.Rand, name string, pathOrigin bool, tsBase int64) *scri
 				n.Prefix.Origin = origin
 			}
 			nu := 1
-			if rng.Intn(3) == 0 {
+			if rng.Intn(3) == 0 && forcedLeaf == "" {
 				nu = 2 + rng.Intn(3)
 			}
 			// Container-replace idiom: one notification deletes the container and
 			// carries its new content (deletes are applied to what was there
 			// before; the notification's own updates stay).
-			if !pathOrigin && split < len(base) && rng.Intn(8) == 0 {
+			if !pathOrigin && split < len(base) && rng.Intn(8) == 0 && forcedLeaf == "" {
 				n.Delete = []*gpb.Path{toPath(base[split:], deprecated)}
 				s.mdl.del(append([]string{name, effOrigin(origin)}, indexOf(base)...))
 				s.mdlAlt.del(append([]string{name, defaultOrigin}, indexOf(base)...))
@@ -276,6 +296,9 @@ func genScript(rng *rand.Rand, name string, pathOrigin bool, tsBase int64) *scri
 			used := map[string]bool{}
 			for u := 0; u < nu; u++ {
 				lf := leafs[rng.Intn(len(leafs))]
+				if forcedLeaf != "" {
+					lf = forcedLeaf
+				}
 				if used[lf] {
 					continue
 				}
@@ -288,6 +311,7 @@ func genScript(rng *rand.Rand, name string, pathOrigin bool, tsBase int64) *scri
 				}
 				n.Update = append(n.Update, &gpb.Update{Path: up, Val: v.TV})
 				s.mdl.set(append([]string{name, effOrigin(origin)}, indexOf(es)...), v.Go)
+				storedTS[model.Key(append([]string{name, effOrigin(origin)}, indexOf(es)...))] = n.Timestamp
 				s.structOf[model.Key(append([]string{name, effOrigin(origin)}, indexOf(es)...))] = storedLeaf{effOrigin(origin), es}
 				s.mdlAlt.set(append([]string{name, defaultOrigin}, indexOf(es)...), v.Go)
 				known = append(known, stored{origin, es})
@@ -296,6 +320,14 @@ func genScript(rng *rand.Rand, name string, pathOrigin bool, tsBase int64) *scri
 		// A target may omit the prefix altogether.
 		if n.Prefix.Origin == "" && len(n.Prefix.Elem) == 0 && len(n.Prefix.Element) == 0 && rng.Intn(2) == 0 {
 			n.Prefix = nil
+		}
+		// A device (or a proxy in front of it) may name itself in prefix.target:
+		// its own hostname, or a name that happens to be another configured
+		// target's. The leaf is still part of the state THIS configured target
+		// streams and must be relayed under the configured name.
+		if n.Prefix != nil && s.selfNames && rng.Intn(3) == 0 {
+			n.Prefix.Target = []string{"dev0", "dev1", "dev2", "device-hostname.example", name}[rng.Intn(5)]
+			s.selfNamed++
 		}
 		s.responses = append(s.responses, &gpb.SubscribeResponse{Response: &gpb.SubscribeResponse_Update{Update: n}})
 	}
@@ -534,6 +566,8 @@ func runScenario(r *vlib.Run, mode string, trial int, rng *rand.Rand) {
 			}
 		}
 		sc.scripts = append(sc.scripts, s)
+		r.Count("stream_same_timestamp_rewrites", int64(s.rewrites))
+		r.Count("stream_notifications_with_device_chosen_prefix_target", int64(s.selfNamed))
 		lis, err := net.Listen("tcp", "127.0.0.1:0")
 		if err != nil {
 			r.Inconclusive("cannot listen")
@@ -1101,9 +1135,9 @@ func prepare(tier, work string) error {
 }
 
 func body(r *vlib.Run) {
-	r.ForTrials("relay", r.N(24, 800), func(trial int, rng *rand.Rand) { runScenario(r, "relay", trial, rng) })
-	r.ForTrials("pathorigin", r.N(4, 40), func(trial int, rng *rand.Rand) { runScenario(r, "pathorigin", trial, rng) })
-	r.ForTrials("reconnect", r.N(8, 120), func(trial int, rng *rand.Rand) { runScenario(r, "reconnect", trial, rng) })
+	r.ForTrials("relay", r.N(48, 2400), func(trial int, rng *rand.Rand) { runScenario(r, "relay", trial, rng) })
+	r.ForTrials("pathorigin", r.N(4, 80), func(trial int, rng *rand.Rand) { runScenario(r, "pathorigin", trial, rng) })
+	r.ForTrials("reconnect", r.N(12, 360), func(trial int, rng *rand.Rand) { runScenario(r, "reconnect", trial, rng) })
 }
 
 func main() {
